@@ -15,6 +15,8 @@ def run(m, tier):
     for f in r4.findings:
         f.rule = "C01.R11"
     results.append(r4)
+    from rules import optional_rules
+    results.append(optional_rules.optional_rule(m, "C01.R12"))
     from rules import C02
     for fn, rid in ((C02.r2_replace_map, "C01.R5"), (C02.r6_inverse_map, "C01.R6"), (C02.r7_restore_order, "C01.R7")):
         rr_ = fn(m)
@@ -27,5 +29,5 @@ def run(m, tier):
             "engines with the call site's class arguments bound) are accepted by the resolved init and agree with the constant indices, "
             "%-format conversion counts, unpack counts and length guards of the resolved printer; every element that can hold a node "
             "or input text is read by the printer; no child is built from placeholder-bearing text, the inverse replace map is bounded "
-            "and ordered, give-backs to the reader are reversed (shared with C02). Does NOT decide equality of trees/text after re-parsing.")
+            "and ordered, give-backs to the reader are reversed (shared with C02); an element the matcher can leave None is printed or dereferenced only on printer paths that established it is not None (per None-pattern). Does NOT decide equality of trees/text after re-parsing.")
     return results, expl
